@@ -176,21 +176,35 @@ def check_chunk(spec, ctx):
         return
     strand1 = rm.compose(L["strand"], st1)
     rm.wellformed(lifted, ctx, "chunk_lift", optimized=False, parent_len=ce - cs, expect_strand=strand1)
-    ctx.eq("chunk_relative_positions", rm.loc_positions(lifted), on_chunk(inside, cs, ce, st1))
+    ne_ = [b for b in bl if b[1] > b[0]]
+    overlapping = any(ne_[i][1] > ne_[i + 1][0] for i in range(len(ne_) - 1))
+    if overlapping:
+        ctx.nt("overlapping_blocks")
+    # clipping overlapping blocks to the window can make two of them tie on start or end; the 5'->3' order of such blocks is
+    # not something a Location represents (C01, F1/F25), so those windows are compared as multisets of positions
+    cl_ = [(max(s_, cs), min(e_, ce)) for s_, e_ in ne_ if max(s_, cs) < min(e_, ce)]
+    tied = len({a for a, _ in cl_}) < len(cl_) or len({b for _, b in cl_}) < len(cl_)
+    if tied:
+        ctx.label("clipped_blocks_tie")
+    od = (lambda x: sorted(x)) if tied else (lambda x: list(x))
+    ctx.eq("chunk_relative_positions", od(rm.loc_positions(lifted)), od(on_chunk(inside, cs, ce, st1)))
     # the block structure (incl. adjacent blocks, which model frameshifts in CDS) is kept, clipped to the window
     clipped = [(max(s_, cs), min(e_, ce)) for s_, e_ in bl if max(s_, cs) < min(e_, ce)]
     exp_blocks = [(a - cs, b - cs) for a, b in clipped] if st1 == "+" else sorted((ce - b, ce - a) for a, b in clipped)
     ctx.eq("chunk_block_structure", sorted(b for b in rm.loc_blocks(lifted) if b[1] > b[0]), sorted(exp_blocks))
     if any(bl[i][1] == bl[i + 1][0] for i in range(len(bl) - 1)):
         ctx.label("adjacent_blocks")
-    ctx.eq("chunk_sequence", str(lifted.extract_sequence()), rm.seq_image(G, inside, L["strand"]))
+    if tied:
+        ctx.eq("chunk_sequence_letters", sorted(str(lifted.extract_sequence())), sorted(rm.seq_image(G, inside, L["strand"])))
+    else:
+        ctx.eq("chunk_sequence", str(lifted.extract_sequence()), rm.seq_image(G, inside, L["strand"]))
     ctx.true("chunk_has_chunk_ancestor", lifted.has_ancestor_of_type("sequence_chunk") and lifted.has_ancestor_of_type("chromosome"))
     back = lifted.lift_over_to_first_ancestor_of_type("chromosome")
-    ctx.eq("chunk_roundtrip_positions", rm.loc_positions(back), inside)
+    ctx.eq("chunk_roundtrip_positions", od(rm.loc_positions(back)), od(inside))
     ctx.eq("chunk_roundtrip_strand", rm.loc_strand(back), L["strand"])
     ctx.true("chunk_roundtrip_parent", back.parent is not None and back.parent.id == name and back.parent.sequence_type == "chromosome", repr(back.parent)[:100])
     same = lifted.lift_over_to_first_ancestor_of_type("sequence_chunk")
-    ctx.eq("chunk_identity_lift", rm.loc_positions(same), on_chunk(inside, cs, ce, st1))
+    ctx.eq("chunk_identity_lift", od(rm.loc_positions(same)), od(on_chunk(inside, cs, ce, st1)))
     # chunk -> second chunk (the composition chunk 1 -> chromosome -> chunk 2, whatever the two chunk strands)
     cs2, ce2 = spec["chunk2"]
     chunk2 = mk_chunk(cs2, ce2, st2)
@@ -202,11 +216,14 @@ def check_chunk(spec, ctx):
     if not inside2:
         ctx.true("chunk2_miss_is_empty", l2 is EmptyLocation(), repr(l2))
     elif ctx.true("chunk2_hit_not_empty", l2 is not EmptyLocation(), repr(l2)):
-        ctx.eq("chunk2_relative_positions", rm.loc_positions(l2), on_chunk(inside2, cs2, ce2, st2))
+        cl2 = [(max(s_, cs, cs2), min(e_, ce, ce2)) for s_, e_ in ne_ if max(s_, cs, cs2) < min(e_, ce, ce2)]
+        tied2 = tied or len({a for a, _ in cl2}) < len(cl2) or len({b for _, b in cl2}) < len(cl2)
+        od2 = (lambda x: sorted(x)) if tied2 else (lambda x: list(x))
+        ctx.eq("chunk2_relative_positions", od2(rm.loc_positions(l2)), od2(on_chunk(inside2, cs2, ce2, st2)))
         ctx.eq("chunk2_strand", rm.loc_strand(l2), rm.compose(L["strand"], st2))
-        ctx.eq("chunk2_sequence", str(l2.extract_sequence()), rm.seq_image(G, inside2, L["strand"]))
+        ctx.eq("chunk2_sequence", od2(str(l2.extract_sequence())), od2(rm.seq_image(G, inside2, L["strand"])))
         b2 = l2.lift_over_to_first_ancestor_of_type("chromosome")
-        ctx.eq("chunk2_roundtrip_positions", rm.loc_positions(b2), inside2)
+        ctx.eq("chunk2_roundtrip_positions", od2(rm.loc_positions(b2)), od2(inside2))
         ctx.eq("chunk2_roundtrip_strand", rm.loc_strand(b2), L["strand"])
     # whole-chromosome parent: identity
     whole = seq_to_parent(G, alphabet=Alphabet.NT_STRICT, seq_id=name)
@@ -252,7 +269,8 @@ def strat_hierarchy(draw, tier="quick"):
 
 @st.composite
 def strat_chunk(draw, tier="quick"):
-    L = draw(S.location_spec(max_k=4, allow_overlap=False, allow_empty=draw(st.integers(0, 3)) == 0, max_len=8, shift_prob=0, strands=["+", "-"]))
+    # staggered overlaps (the documented model of a programmed frameshift) in a quarter of the cases
+    L = draw(S.location_spec(max_k=4, allow_overlap=draw(st.integers(0, 3)) == 0, allow_empty=draw(st.integers(0, 3)) == 0, max_len=8, shift_prob=0, strands=["+", "-"]))
     hi = max(b[1] for b in L["blocks"])
     lo = min(b[0] for b in L["blocks"])
     n = hi + draw(st.integers(0, 6))
@@ -277,14 +295,14 @@ PROP = Prop(
             must_hit=["depth>=3", "two_minus_levels", "block_split_across_parent_blocks", "no_ancestor", "lift_by_sequence"],
             rule="hierarchies of depth 1..3 (4 levels incl. root), each level placed on its parent by a 1..3-block location on either strand, sequences extracted from the root; child locations of 1..3 blocks; every ancestor as target by type and by sequence identity; absent ancestors"),
         Leg("chunk", check_chunk, strategy=strat_chunk, n_quick=1200, n_thorough=10000, shards_quick=4,
-            must_hit=["chunk_cuts_block", "chunk_misses", "chunk_to_chunk", "minus", "minus_chunk", "chunk_to_chunk_with_minus_chunk"],
+            must_hit=["chunk_cuts_block", "chunk_misses", "chunk_to_chunk", "minus", "minus_chunk", "chunk_to_chunk_with_minus_chunk", "overlapping_blocks"],
             rule="chromosome locations x chunk windows x chunk strands (a chunk may be the reverse complement of its window) through seq_chunk_to_parent and liftover_location_to_seq_chunk_parent, lifted down, back up, and on to a second chunk of either strand"),
     ],
     rule="Oracle: composition of per-level position lists (PosModel) and SeqModel on the root. Non-trivial: depth>=2 with a minus level and a "
          "multi-block level, or a child block split across parent blocks, or a chunk cutting a block / missing the location.",
     assumptions=[
         "hierarchies are built in the idiom of the library's own tests: Parent(id, sequence_type, sequence, location=placement of the child level, parent=next ancestor)",
-        "placements and child locations have non-overlapping blocks (self-overlap: see C01 findings)",
+        "placements and child locations of the hierarchy leg have non-overlapping blocks (self-overlap: see C01 findings); the chunk leg also lifts locations with staggered overlapping blocks (the frameshift model), compared as multisets where clipping makes two blocks tie",
         "distinct ids per case (Parent objects are lru-cached on value; C10 attacks the cache)",
     ],
 )
